@@ -230,14 +230,14 @@ def clashing_variants(rnd, c0, call):
 def unit(p, item, tier, seed):
     s = item
     rnd = random.Random(s)
-    fam = [(n, c) for n, c in circgen.feature_circuits()] if s % 16 == 0 else []
+    fam = [(n, c) for n, c in circgen.feature_circuits() + circgen.large_circuits(s)[:1]] if s % 16 == 0 else []
     for i in range(20 if tier == "quick" else 50):
         c = circgen.random_circuit(rnd, rnd.randint(1, 4), rnd.randint(1, 8), max_arity=3, n_outputs=rnd.randint(1, 3), shuffle_storage=bool(i % 2))
         circgen.add_random_blocks(c, rnd, 2)
         fam.append((f"seeded[{s}:{i}]", c))
     for name, c0 in fam:
         labs = list(c0.gates)
-        for lab in labs:
+        for lab in (labs if len(labs) <= 40 else rnd.sample(labs, 12)):
             check_rename(p, name, c0, lab, "renamed_" + lab)
             check_remove(p, name, c0, lab)
         if labs:
